@@ -79,7 +79,10 @@ class StmtMixin:
         for s, v in self.ev(n.value, st):
             try:
                 ty = self.reg.parse(n.annotation)
-                if ty.kind != "py":
+                # an annotation is not a cast: only widen (None / T into Optional[T], typed empty literals, constants);
+                # an Optional value annotated as T stays Optional
+                widening = v.is_py or v.ty.kind == "none" or (v.meta and v.meta.get("empty")) or ty.kind == "opt"
+                if ty.kind != "py" and widening:
                     v = self.coerce(v, ty)
             except (TypeError, Unsupported):
                 pass
